@@ -214,7 +214,7 @@ def f64_promote_f32(v: ir.f32) -> ir.f64:
 
 
 def f32_demote_f64(v: ir.f64) -> ir.f32:
-    return v
+    return _round_f32(v)
 
 
 def f64_reinterpret_i64(v: ir.i64) -> ir.f64:
